@@ -353,7 +353,7 @@ fn cmd_replay_beh(a: &Args) {
 		for (vi, ver) in pick_versions(&db, &beh, idx, nver, seed).into_iter().enumerate() {
 			let mut o = GenOpts::new(seed ^ ((idx as u64) << 20) ^ vi as u64, ver);
 			o.plan = ((idx + vi) % 2) as u8;
-			if beh.hist.iter().any(|e| e.k == "unk") {
+			if beh.hist.iter().any(|e| e.k == "unk") || beh.tail_unk != [0, 0] {
 				o.unk_sizes.insert(64, [1u16, 7, 600, 65535][(idx + vi) % 4]);
 			}
 			let built = gen::build_beh(&db, &beh, &o);
